@@ -43,8 +43,11 @@ class Prop:
             "destroy). Schedules: directed (`follow`: which thread performs the next visible event; random walks with "
             "stickiness 0.3..0.9), raw detsched schedules (preemption density 5..60 %), directed sweeps placing a submission / "
             "a quit after every number of loop-thread steps (also against a chain of functors that queue one another from inside "
-            "the drain after the `while`), and — thorough tier — every schedule of four small programs "
-            "within 2..3 preemptions. A case counts as non-trivial when at least two threads acted or a submission context "
+            "the drain after the `while`), and — thorough tier — every schedule of seven small programs "
+            "within 1..3 preemptions (three of them aim at the silent switch point the harness offers immediately before "
+            "handleRead()'s read of the eventfd: a foreign queueInLoop()+wakeup() inside that window, a further foreign "
+            "submission once the loop is back in poll; the same three are enumerated first whenever an obligation or a tie "
+            "breaks or a run diverges from the model). A case counts as non-trivial when at least two threads acted or a submission context "
             "other than the plain foreign one occurred; distinct = distinct implementation logs.")
     trusted_base = [
         "Lean 4.33.0 kernel; axioms allowed: propext, Classical.choice, Quot.sound",
